@@ -12,6 +12,16 @@ import sys
 VERIF = os.path.dirname(os.path.dirname(os.path.abspath(__file__)))
 
 HINTS = {
+    6: "ROUND %d. Earlier testers already produced the changes listed at the end; yours must be of a DIFFERENT kind "
+       "again. This time play the well-meaning maintainer: (a) a PERFORMANCE optimisation gone subtly wrong - a fast "
+       "path that skips work believed redundant, a cache / pooled object / preallocated buffer / unsafe string-bytes "
+       "conversion / avoided reflection / hoisted lookup whose validity condition is slightly too weak; or (b) a "
+       "REFACTORING that unifies near-duplicate code paths (two verbs, two formats, the method and its package-level "
+       "twin, the Set and the With form, the option and the method) where one of the originals had a small difference "
+       "that mattered; or (c) a change to DEFAULTS and start-up state (what a fresh logger / the default logger / the "
+       "package starts with in the two process modes); or (d) a robustness fix (nil checks, recover, clamping of "
+       "arguments, ignoring 'impossible' values) that changes behaviour for legal input. As before each change must "
+       "need something specific to manifest and must leave the whole existing suite green.",
     5: "ROUND %d. Earlier testers already produced the changes listed at the end; yours must be of a DIFFERENT kind "
        "again. This time favour SMALL, plausible edits of the kind that slip through code review: an off-by-one in a "
        "bound or a loop, '<' for '<=', a swapped pair of arguments, a condition inverted on one rarely taken branch, a "
